@@ -205,6 +205,7 @@ type gtOp struct {
 	Ch   []int    `json:"ch"`
 	Kind string   `json:"kind"` // local | shared | chan | tcp
 	Key  string   `json:"key"`  // identity of the variable cell (locals and shared variables)
+	Ck   string   `json:"ck"`   // the variable owning the cell's clock (all cells of a function-valued variable share one clock)
 }
 
 type cctx struct {
@@ -301,19 +302,21 @@ func (w *world) body(c *cctx) func(iface distsys.ArchetypeInterface) error {
 		for _, op := range att.Ops {
 			var h distsys.ArchetypeResourceHandle
 			var ix []tla.Value
-			var name, kind, key string
+			var name, kind, key, ck string
 			isRead := false
 			switch op.O {
 			case "rl", "wl":
 				name, kind = op.R, "local"
 				h = local(name)
 				key = fmt.Sprintf("c%d.%s", c.idx, name)
+				ck = key
 				isRead = op.O == "rl"
 			case "rf", "wf":
 				name, kind = "f", "local"
 				h = local(name)
 				ix = []tla.Value{tla.MakeNumber(int32(op.I))}
 				key = fmt.Sprintf("c%d.f[%d]", c.idx, op.I)
+				ck = fmt.Sprintf("c%d.f", c.idx)
 				isRead = op.O == "rf"
 			case "rs", "ws":
 				name, kind = op.R, "shared"
@@ -321,6 +324,7 @@ func (w *world) body(c *cctx) func(iface distsys.ArchetypeInterface) error {
 					return err
 				}
 				key = "sh." + name
+				ck = key
 				isRead = op.O == "rs"
 			case "rm", "wm":
 				name, kind = "m", "shared"
@@ -329,6 +333,7 @@ func (w *world) body(c *cctx) func(iface distsys.ArchetypeInterface) error {
 				}
 				ix = []tla.Value{tla.MakeNumber(int32(op.I))}
 				key = fmt.Sprintf("sh.m[%d]", op.I)
+				ck = "sh.m"
 				isRead = op.O == "rm"
 			case "so":
 				name, kind = fmt.Sprintf("o%d", op.I), "chan"
@@ -368,7 +373,7 @@ func (w *world) body(c *cctx) func(iface distsys.ArchetypeInterface) error {
 					return err
 				}
 				reads = append(reads, v)
-				c.ops = append(c.ops, gtOp{T: "read", P: c.arch, N: name, Ix: ixStrings(ix), V: v.String(), Ch: chainOf(v), Kind: kind, Key: key})
+				c.ops = append(c.ops, gtOp{T: "read", P: c.arch, N: name, Ix: ixStrings(ix), V: v.String(), Ch: chainOf(v), Kind: kind, Key: key, Ck: ck})
 			} else {
 				chain := []int{}
 				if op.Rel > 0 && op.Rel <= len(reads) && reads[op.Rel-1].IsTuple() {
@@ -381,7 +386,7 @@ func (w *world) body(c *cctx) func(iface distsys.ArchetypeInterface) error {
 					return err
 				}
 				reads = append(reads, tla.Value{})
-				c.ops = append(c.ops, gtOp{T: "write", P: c.arch, N: name, Ix: ixStrings(ix), V: v.String(), Ch: chain, Kind: kind, Key: key})
+				c.ops = append(c.ops, gtOp{T: "write", P: c.arch, N: name, Ix: ixStrings(ix), V: v.String(), Ch: chain, Kind: kind, Key: key, Ck: ck})
 			}
 		}
 		if att.Ab {
@@ -393,7 +398,7 @@ func (w *world) body(c *cctx) func(iface distsys.ArchetypeInterface) error {
 		}
 		err = iface.Goto(target)
 		if err == nil {
-			c.ops = append(c.ops, gtOp{T: "write", P: "", N: ".pc", Ix: []string{}, V: tla.MakeString(target).String(), Ch: []int{}, Kind: "local", Key: fmt.Sprintf("c%d..pc", c.idx)})
+			c.ops = append(c.ops, gtOp{T: "write", P: "", N: ".pc", Ix: []string{}, V: tla.MakeString(target).String(), Ch: []int{}, Kind: "local", Key: fmt.Sprintf("c%d..pc", c.idx), Ck: fmt.Sprintf("c%d..pc", c.idx)})
 		}
 		return err
 	}
@@ -621,7 +626,7 @@ func runCase(cs *Case, traceRoot string, seq int, recMode string) (lines []rec) 
 				break
 			}
 			c.cur, c.ops, c.bodyErr, c.commits, c.aborts = att, nil, nil, 0, 0
-			c.ops = append(c.ops, gtOp{T: "read", P: "", N: ".pc", Ix: []string{}, V: tla.MakeString(want).String(), Ch: []int{}, Kind: "local", Key: fmt.Sprintf("c%d..pc", c.idx)})
+			c.ops = append(c.ops, gtOp{T: "read", P: "", N: ".pc", Ix: []string{}, V: tla.MakeString(want).String(), Ch: []int{}, Kind: "local", Key: fmt.Sprintf("c%d..pc", c.idx), Ck: fmt.Sprintf("c%d..pc", c.idx)})
 			c.k++
 			c.g.grant <- true
 			if err := wait(c); err != nil {
